@@ -115,5 +115,24 @@ CHECKS["C11"] = dict(
     note="frozen clock; cookie values pass through http.SetCookie / Response.Cookies / Request.AddCookie exactly as in a real exchange",
     parts=[dict(bin="vh", part="c11", shards=16, budget=dict(quick=100, thorough=1500))])
 
+CHECKS["C06"] = dict(
+    level="fault_enumeration", engine="enum", design_ref="DESIGN.md §5 C06",
+    technique="bounded-exhaustive enumeration of request shapes x per-attempt handler scripts (bytes consumed, request mutation, failure) on the real buffer; requests parsed by http.ReadRequest from raw bytes",
+    text="Full product of memory thresholds, body lengths around them (up to multi-megabyte in thorough), framings, methods, header sets, retry depths 1-3 and, for each failed attempt, how much of the body it consumed and how it mutated the request it was handed: every invocation must see the client's method, URL, headers, true Content-Length, no chunked marker and the body from the first byte.",
+    note="handler called through buffer.ServeHTTP with a recorder; the request object is exactly what net/http's server parser produces",
+    parts=[dict(bin="vh", part="c06", shards=16, budget=dict(quick=100, thorough=1500))])
+CHECKS["C07"] = dict(
+    level="fault_enumeration", engine="enum", design_ref="DESIGN.md §5 C07",
+    technique="program enumeration (retry expressions from the grammar) x attempt-status sequences against a reference evaluator, plus response-shape enumeration through a real loopback server and raw TCP client",
+    text="Every generated retry expression x method x 31 status sequences: invocation count equals the reference reading of the expression capped at 11, and the client gets the final attempt's status/headers/body only. Every response shape (status incl. implicit, header sets, body chunkings, with/without a discarded attempt) over real HTTP: exactly one well-formed response equal to the final attempt's; implicit status => 200; empty body => empty body.",
+    note="implicit-status attempts may be read as code 0 or 200 by the expression; 30s watchdog re-run 5x",
+    parts=[dict(bin="vh", part="c07", shards=16, budget=dict(quick=100, thorough=1500))])
+CHECKS["C15"] = dict(
+    level="fault_enumeration", engine="enum", design_ref="DESIGN.md §5 C15",
+    technique="bounded-exhaustive enumeration of sizes around the memory threshold and the maximum x framing / write pattern x method x status x retries on the real buffer with a private TMPDIR inspected after every exchange",
+    text="Requests over the maximum (declared or chunked) get 413 and never reach the handler; responses over the maximum become an error status with none of the handler's bytes; after every exchange (success, error, over a limit, after retries, bodiless response kinds) the private temporary directory is empty.",
+    note="spill files are observed in $TMPDIR of the worker process; request spills are unlinked at creation by multibuf",
+    parts=[dict(bin="vh", part="c15", shards=16, budget=dict(quick=100, thorough=1500))])
+
 NOT_APPLICABLE = [dict(property_id=p, reason="check not built yet in this revision (work in progress; see DESIGN.md for the plan)")
                   for p in ALL if p not in CHECKS]
